@@ -128,6 +128,25 @@ def prop(case, res):
             res.hist['whitelisted(do.rnc)'] += 1
         else:
             res.violation('%s|generated!=present' % key, 'c05', case, {'number': v, 'generated': g[1], 'present': present})
+    # (a') a generator that is handed the whole number computes the check from the rest of it: what stands at the check
+    # position(s) (a placeholder, a stale check digit) must not matter
+    if t['arg'] is whole:
+        a, b = t['sl']
+        n = len(v)
+        a = a if a >= 0 else n + a
+        b = n if b is None else (b if b >= 0 else n + b)
+        for k in range(2):
+            w = list(v)
+            for i in range(a, b):
+                al = gen.cls(v[i]) or v[i]
+                w[i] = al[(al.index(v[i]) + 1 + 3 * k) % len(al)]
+            w = ''.join(w)
+            res.evals += 1
+            g2 = core.out(fn, w)
+            if g2 != g:
+                res.violation('%s|generator-depends-on-the-check-position' % key, 'c05', case,
+                              {'number': v, 'with-other-check': w, 'generated': [str(x) for x in g], 'generated-then': [str(x) for x in g2]})
+                break
     # (b) alternatives at each single check position
     if t['mod'] not in NO_CLAUSE_B:
         a, b = t['sl']
